@@ -44,6 +44,9 @@ REG = {
  'C10': ('model_checking', 'TLA+ sequential definition of the 5 subjects enumerated by TLC and replayed; linearizability of real concurrent histories decided by TLC (silent linearization steps)',
          'SubjectSeq.tla is the sequential definition; TLC enumerates every operation sequence inside the bounds for 11 kind/buffer configurations and the real subjects are driven through each (deliveries per subscriber and the 5 getters compared after every operation). SubjectLin.tla accepts a recorded concurrent history iff some placement of one silent linearization step per call explains every subscriber\'s observations; histories come from free-running threads with yield hooks and from park-mode schedule replay (one preemption at every hook point).',
          'bounds: <= 6 operations sequentially; 2-4 threads x <= 5 calls concurrently; one relaxation (a notification overlapping an Unsubscribe(i) may be cut for i)', '6/C10'),
+ 'C11': ('model_checking', 'TLA+ sequential definitions of Share/ShareReplay/connectable enumerated by TLC and replayed; concurrent traces validated by TLC against a gauge acceptor',
+         'ShareSeq.tla and ConnSeq.tla define the reference count, reset flags and connector behaviour; TLC enumerates every operation sequence inside the bounds for 32 Share configurations and 8 connectable configurations; the real operators are driven through each over an instrumented source (deliveries, live and total upstream subscriptions after every operation). Concurrent traces (free-running with yield hooks and park-mode schedule replay) are validated against ShareGauge.tla.',
+         'bounds: <= 5 operations, 3 subscribers; the concurrent clause checks <= 1 live upstream at quiescent points, release at reference count zero, grammar, nothing-before-Connect (no linearizability oracle for Share)', '6/C11'),
 }
 NA_REASON = 'check not built yet (framework under construction); planned, see DESIGN.md section 6'
 
